@@ -40,6 +40,22 @@ var (
 	ErrConnectionFailed      = errors.Errorf("No suitable DNS query type found. Are you connected to a network?")
 )
 
+// isTimeout tells whether an error means that no answer arrived in time: our own marker, or the network time-out
+// the communicator reports for a lost query or answer (possibly wrapped on its way up).
+func isTimeout(err error) bool {
+	if err == nil {
+		return false
+	}
+	cause := errors.Cause(err)
+	if err == smux.ErrTimeout || cause == smux.ErrTimeout {
+		return true
+	}
+	if ne, ok := cause.(net.Error); ok && ne.Timeout() {
+		return true
+	}
+	return false
+}
+
 // ClientDnsConnection will simulate connections over a DNS server request/response loop
 type ClientDnsConnection struct {
 	Communicator      ClientCommunicator
@@ -405,7 +421,7 @@ func (dc *ClientDnsConnection) EncodingTestUpstream(testPattern []byte) error {
 
 	for i := 0; !dc.Closed() && i < 3; i++ {
 		var resp *commands.TestUpstreamEncoderResponse
-		if r, err := dc.SendEncodingTestUpstream(testPattern, secs(i+1)); err == smux.ErrTimeout {
+		if r, err := dc.SendEncodingTestUpstream(testPattern, secs(i+1)); isTimeout(err) {
 			log.Debug("Retrying upstream codec test...")
 			continue
 		} else if err != nil {
@@ -506,7 +522,7 @@ func (dc *ClientDnsConnection) SetEncodingUpstream() error {
 	log.Infof("Switching upstream to codec to %v", dc.Serializer.Upstream.Encoder.Name())
 	for i := 0; !dc.Closed() && i < 5; i++ {
 		resp, err := dc.SendSetEncodingUpstream(secs(i + 1))
-		if err == smux.ErrTimeout {
+		if isTimeout(err) {
 			log.Debugf("No response, retrying...")
 			continue
 		} else if err != nil {
@@ -619,7 +635,7 @@ func (dc *ClientDnsConnection) SetEncodingDownstream() error {
 	log.Infof("Switching downstream to codec to %v", dc.Serializer.Downstream.Encoder.Name())
 	for i := 0; !dc.Closed() && i < 5; i++ {
 		resp, err := dc.SendSetEncodingDownstream(secs(i + 1))
-		if err == smux.ErrTimeout {
+		if isTimeout(err) {
 			log.Debugf("No response, retrying...")
 			continue
 		} else if err != nil {
@@ -684,7 +700,7 @@ func (dc *ClientDnsConnection) AutodetectFragmentSize() (uint32, error) {
 		/* stop the slow probing early when we have enough bytes anyway */
 		for i := 0; !dc.Closed() && i < 3; i++ {
 			resp, err := dc.SendFragmentSizeTest(proposed, secs(1))
-			if err == smux.ErrTimeout {
+			if isTimeout(err) {
 				continue
 			} else if err != nil {
 				log.WithError(err).Warnf("Communication error: %v", err)
@@ -769,7 +785,7 @@ func (dc *ClientDnsConnection) AutodetectLazyMode() {
 
 	for i := 0; !dc.Closed() && i < 5; i++ {
 		resp, err := dc.SendSetEncodingDownstream(secs(i + 1))
-		if err == smux.ErrTimeout {
+		if isTimeout(err) {
 			log.Debugf("No response, retrying...")
 			continue
 		} else if err != nil {
@@ -810,7 +826,7 @@ func (dc *ClientDnsConnection) SwitchFragmentSize(requested uint32) error {
 	for i := 0; !dc.Closed() && i < 5; i++ {
 		resp, err := dc.SendSetDownstreamFragmentSize(requested, secs(i+1))
 
-		if err == smux.ErrTimeout {
+		if isTimeout(err) {
 			log.Debugf("Retrying set fragsize...")
 			continue
 		} else if err != nil {
@@ -1008,7 +1024,7 @@ func (dc *ClientDnsConnection) SendAndReceive(chunk *util.Packet) error {
 
 	for i := 1; i <= 5; i++ {
 		timeout := time.Duration(i) * time.Second
-		if resp, err := dc.Query(req, timeout); err == smux.ErrTimeout {
+		if resp, err := dc.Query(req, timeout); isTimeout(err) {
 			if i == 5 {
 				return err
 			} else {
